@@ -48,6 +48,18 @@ def tdm_script(draw, tier, control=False):
                 if stt.args is None:
                     stt.args = A.Args([], [], False)
                 ref = S.F1(A.Var(draw(st.sampled_from(pnames))))
+                form = draw(st.integers(0, 7))
+                if form == 0:
+                    ref = S.F1(A.Paren(ref))                                   # (p1)
+                elif form == 1:
+                    ref = A.Flat([A.Operand("+", ref.operands[0].prim)], [])   # +p1
+                elif form == 2:
+                    ref = S.F1(A.Paren(S.F1(A.Paren(ref))))                    # ((p1))
+                elif form == 3 and stt.args.kwargs:
+                    other = S.F1(A.Var(draw(st.sampled_from(pnames))))
+                    stt.args.kwargs[0][1] = A.ListVal([ref, S.F1(A.Paren(other))] if draw(st.booleans()) else [ref])   # k=[p1, (p3)]
+                    items.append(stt)
+                    continue
                 if draw(st.booleans()) or not stt.args.kwargs:
                     stt.args.pos.insert(draw(st.integers(0, len(stt.args.pos))), ref)
                     stt.args.trailing_comma = False
